@@ -21,7 +21,18 @@ SPEC = os.path.join(facts_mod.VERIF, "selftest", "mutants.json")
 
 def load_specs():
     with open(SPEC) as fh:
-        return json.load(fh)
+        specs = json.load(fh)
+    # the independently written breaking changes kept under seeded/: each must be reported by its own property's check
+    import glob
+    for mp in sorted(glob.glob(os.path.join(facts_mod.VERIF, "seeded", "*", "meta.json"))):
+        try:
+            meta = json.load(open(mp))
+        except Exception:
+            continue
+        d = os.path.dirname(mp)
+        specs.append({"id": "seed:" + os.path.basename(d), "property": [meta["breaks_property"]], "kind": "mutant",
+                      "patch": os.path.join(d, "patch.diff"), "silent": meta.get("silent", [])})
+    return specs
 
 
 def run_rules(pid, F, tier="quick"):
@@ -42,7 +53,13 @@ def run_spec(spec, pids=None):
     """-> dict(id, status, detail) ; status in ok / FAILED / skipped"""
     res = {"id": spec["id"], "kind": spec.get("kind", "mutant"), "property": spec["property"]}
     with Scratch() as sc:
-        for e in spec["edits"]:
+        if spec.get("patch"):
+            okp, pout = sc.apply_patch(spec["patch"])
+            if not okp:
+                res["status"] = "skipped"
+                res["detail"] = "patch no longer applies: " + pout[-120:]
+                return res
+        for e in spec.get("edits", []):
             if not sc.replace(e["file"], e["old"], e["new"], count=e.get("count", 1)):
                 res["status"] = "skipped"
                 res["detail"] = "edit no longer applies to %s" % e["file"]
@@ -80,16 +97,29 @@ def run_spec(spec, pids=None):
     return res
 
 
-def run_for_property(pid, only=None):
-    out = []
+def _job(a):
+    spec, pid = a
+    try:
+        return run_spec(spec, [pid])
+    except Exception as e:
+        return {"id": spec["id"], "status": "error", "detail": "%s: %s" % (type(e).__name__, str(e)[:200])}
+
+
+def run_for_property(pid, only=None, jobs=None):
+    todo = []
     for spec in load_specs():
         props = [spec["property"]] if isinstance(spec["property"], str) else spec["property"]
         if pid not in props and pid not in spec.get("silent", []):
             continue
         if only and spec["id"] not in only:
             continue
-        out.append(run_spec(spec, [pid]))
-    return out
+        todo.append((spec, pid))
+    jobs = jobs or int(os.environ.get("TM_JOBS", "0") or 0) or min(12, os.cpu_count() or 4)
+    if jobs <= 1 or len(todo) <= 1:
+        return [_job(t) for t in todo]
+    import multiprocessing
+    with multiprocessing.get_context("fork").Pool(min(jobs, len(todo))) as pool:
+        return pool.map(_job, todo, chunksize=1)
 
 
 if __name__ == "__main__":
